@@ -18,7 +18,7 @@ from vf.xmodel import Schema, Rop, Shadow, Bound
 
 SHARDS = {'quick': 16, 'thorough': 64}
 TIMEOUT = {'quick': 1500, 'thorough': 7200}
-MUST_HIT = ['Call.name-differs-in-case-only-function', 'Call.name-differs-in-case-only-external-entity', 'Call.python-function', 'Call.python-bridge', 'Call.python-class-operation',
+MUST_HIT = ['Call.same-named-operations-of-two-classes', 'Call.name-differs-in-case-only-function', 'Call.name-differs-in-case-only-external-entity', 'Call.python-function', 'Call.python-bridge', 'Call.python-class-operation',
             'Call.derived-attribute-early-bare-return', 'Scope.local-named-like-parameter', 'Call.argument-order-observable', 'Call.earlier-component-rechecked', 'Call.builtin-external-entity', 'Call.legacy-keyword-bridge', 'Call.legacy-keyword-transform', 'Call.python-instance-operation', 'Call.derived-attribute', 'Call.derived-attribute-outside-state', 'Call.enumerator', 'Call.constant',
             'Call.nested', 'Call.recursive', 'Call.bare-return', 'Call.no-return', 'Call.in-where-clause',
             'Call.in-loop-condition', 'Scope.caller-variable-kept', 'State.compared']
@@ -174,6 +174,15 @@ class ModelGen(object):
             f0 = r.choice(fns)
             self.elems.insert(r.randint(1, len(self.elems)),
                               Elem('f', f0.name.capitalize(), r.choice((INT, STR)), [('n', INT)]))
+        # another class carries an instance operation of the same name as one of K's, with another body: which one
+        # runs is a matter of the receiving instance
+        self.twin = None
+        iops = [x for x in self.elems if x.kind == 'iop']
+        if iops:
+            t = Elem('iop', iops[0].name, INT, [], 'K2')
+            t.body = [oalsem.return_(oalsem.bin_('+', oalsem.attr(oalsem.self_(), 'der'), oalsem.lit(1000)))]
+            t.text = om.render(om.body(t.body), self.render_rng, case=self.case)
+            self.twin = t
         for i, e in enumerate(self.elems):
             if e.body is None:
                 e.body = self.body(e, i)
@@ -201,8 +210,19 @@ class ModelGen(object):
                              oalsem.assign(oalsem.attr(oalsem.self_(), 'der'), expr)]
         self.der_text = om.render(om.body(self.der_body), self.render_rng, case=self.case)
 
+    def twin_call(self, stmts, locals_):
+        '''an instance of the other class is created and its same-named instance operation invoked'''
+        v = self.fresh()
+        if v in locals_ and locals_[v] != INT:
+            return
+        SAME_NAMED_OPS[0] += 1
+        stmts.append(oalsem.create('k2', 'K2'))
+        stmts.append(oalsem.assign(oalsem.attr(oalsem.var('k2'), 'der'), oalsem.lit(self.rng.randint(0, 9))))
+        stmts.append(oalsem.assign(oalsem.var(v), call_node(self.twin, {}, target=oalsem.var('k2'))))
+        locals_[v] = INT
+
     def is_pure(self, e):
-        by_name = dict((x.uid, x) for x in self.elems)
+        by_name = dict((x.uid, x) for x in self.elems + ([self.twin] if self.twin is not None else []))
 
         def walk(sem):
             if isinstance(sem, tuple) and sem and isinstance(sem[0], str):
@@ -362,6 +382,9 @@ class ModelGen(object):
                 iops = [x for x in self.elems[:rank] if x.kind == 'iop']
                 if iops:
                     c = r.choice(iops)
+                    twin_first = r.random() < 0.5
+                    if self.twin is not None and self.twin.name == c.name and twin_first:
+                        self.twin_call(stmts, locals_)
                     node = call_node(c, self.args(c, e, rank, 1, locals_=locals_), target=oalsem.var('k'))
                     if c.ret is not None:
                         v = self.fresh()
@@ -373,6 +396,8 @@ class ModelGen(object):
                     else:
                         stmts.append(oalsem.S(om.invoke(node, 'transform' if r.random() < 0.4 else None),
                                               ('invoke', node.sem)))
+                    if self.twin is not None and self.twin.name == c.name and not twin_first:
+                        self.twin_call(stmts, locals_)
             elif k < 0.9:
                 # a call inside a where clause
                 cands = [x for x in self.elems[:rank] if x.ret == INT and x.kind != 'iop' and x.pure
@@ -418,10 +443,14 @@ class ModelGen(object):
             if e.kind in ('cop', 'iop'):
                 ops.append(bp.Callable_(e.name, TYNAME[e.ret], [(pn, TYNAME[pt]) for pn, pt in e.params], e.text,
                                         instance_based=(e.kind == 'iop')))
+        ops2 = []
+        if getattr(self, 'twin', None) is not None:
+            t = self.twin
+            ops2.append(bp.Callable_(t.name, TYNAME[t.ret], [], t.text, instance_based=True))
         attrs = [bp.Attr('Id', 'unique_id'), bp.Attr('N', 'integer'), bp.Attr('S', 'string'),
                  bp.Attr('F', 'boolean'), bp.Attr('der', 'integer', derived=self.der_text)]
         d.classes = [bp.Cls('Klass', 'K', 1, attrs, [['Id']], ops),
-                     bp.Cls('Other', 'K2', 2, [bp.Attr('Id', 'unique_id'), bp.Attr('der', 'integer')], [['Id']])]
+                     bp.Cls('Other', 'K2', 2, [bp.Attr('Id', 'unique_id'), bp.Attr('der', 'integer')], [['Id']], ops2)]
         for e in self.elems:
             if e.kind == 'f':
                 d.functions.append((bp.Callable_(e.name, TYNAME[e.ret], [(pn, TYNAME[pt]) for pn, pt in e.params],
@@ -439,6 +468,7 @@ class ModelGen(object):
 
 
 CASE_TWINS = {}
+SAME_NAMED_OPS = [0]
 
 
 class CallRef(object):
@@ -473,7 +503,8 @@ class CallRef(object):
         return ret
 
     def dispatch(self, kind, name, kwargs, caller, target):
-        elem = [e for e in self.gen.elems if e.uid == name][0]
+        elem = [e for e in self.gen.elems + [x for x in (getattr(self.gen, 'twin', None),) if x is not None]
+                if e.uid == name][0]
         # the callee allocates ids from the shared counter
         self.ids[0] = caller.id_counter
         ret = self.invoke(elem, kwargs, target)
@@ -772,5 +803,6 @@ def run(ctx):
         ctx.hit('Call.derived-attribute-' + k, v)
     for k, v in CASE_TWINS.items():
         ctx.hit('Call.name-differs-in-case-only-' + k, v)
+    ctx.hit('Call.same-named-operations-of-two-classes', SAME_NAMED_OPS[0])
     ctx.hit('Call.argument-order-observable', ARG_ORDER[0])
     ctx.hit('Scope.local-named-like-parameter', SHADOWED[0])
